@@ -8,7 +8,7 @@
 (* ComponentDependencyMiddleware and CommonMiddleware in any order, with a   *)
 (* recording tap between the layers.                                         *)
 (*   trace = [id, assets (components with js/css), comps (per component:     *)
-(*            vd, cd, names, child), events]                                 *)
+(*            vd, cd, names, child, on), events]                             *)
 (*   event = [op "view": c, m, kw, ans (observed answer of the dispatch),    *)
 (*            seen (what the handler saw) | op "page",                       *)
 (*            r0 (projected response of the view),                           *)
@@ -67,7 +67,7 @@ FailingAns(e) ==
   IF e.op # "view" THEN {}
   ELSE {c \in {"answer", "seen", "view_response", "status"} :
      CASE c = "answer" -> ObsAns(e) # Want(e) /\ ~IsDevAns(e)
-       [] c = "seen"   -> ObsAns(e).res = "handled" /\ ObsAns(e) = Want(e) /\ e.seen # Seen(e.m, e.kw)
+       [] c = "seen"   -> ObsAns(e).res = "handled" /\ ObsAns(e) = Want(e) /\ e.seen # Seen(e.m, e.kw, Comp(e).on)
        [] c = "view_response" -> ObsAns(e).res = "handled" /\ ObsAns(e) = Want(e) /\ e.r0 # RtrResp(e)
        [] c = "status" -> ObsAns(e).res \in {"405", "options"} /\ (e.r0.st # ObsAns(e).st \/ e.r0.body.marks # <<>>)}
 
